@@ -2,7 +2,7 @@
 From PSA Require Import model.Bytes model.Clients model.Ipdb model.Dhcp spec.SpecTable spec.SpecIpdb model.Server
   proofs.TableProofs proofs.LeaseProofs proofs.ServerProofs.
 From PSA Require Import spec.Monitors.
-From PSA Require Import spec.WireHyps spec.WireExample proofs.WireProofs proofs.WireInv proofs.WireHypsProofs proofs.WireExampleProofs.
+From PSA Require Import spec.WireHyps spec.WireExample proofs.WireProofs proofs.WireInv proofs.WireHypsProofs proofs.WireExampleProofs spec.WireExample3 proofs.WireExample3Proofs.
 Open Scope N_scope.
 
 (* a reserved hardware address is served under its internal identity whatever client identifier it sends *)
@@ -51,6 +51,15 @@ Print Assumptions C03_exclusive.
 Theorem C03_on_the_wire : forall c h, cfg_wire_ok c -> cfg_srv_ok c -> Forall wf_round h -> seq_times 0%Z h -> accepted c h -> mon_C03 c h = true.
 Proof. exact accepted_history_c03. Qed.
 Print Assumptions C03_on_the_wire.
+
+(* the premises of the wire theorem are met by a recorded history of a client with a reserved address and settings of its own
+   (spec/WireExample3.v) *)
+Theorem C03_wire_nonvacuous_reservation : exists c h, wire_example3 = Some (c, h) /\ wire_premises c h /\ accepted c h /\
+  length h = 4%nat /\ length (events c h) = 4%nat /\
+  exists mac ip os, c_statics c = [(mac, ip)] /\ Forall (fun e => le_ip e = ip /\ le_mac e = mac) (events c h) /\
+                    assoc mac (c_opts c) = Some os /\ os <> c_default_opts c.
+Proof. exact wire_example3_full. Qed.
+Print Assumptions C03_wire_nonvacuous_reservation.
 
 Example C03_nonvacuous :
   let x := {| net_from := 10; net_to := 20; dyn_from := 12; dyn_to := 13; st := empty_store |} in
